@@ -49,6 +49,9 @@ class AntecedentMonitor:
                 ctx.violation(f"a grammatical antecedent is rejected ({type(exc).__name__})", {"antecedent": ant.text}, "loaded", repr(exc)[:200])
             else:
                 ctx.hit("event:load rejected (not a registered antecedent)")
+                if ant.is_loaded():
+                    # the text now held was refused: whatever expression is still there belongs to another text
+                    ctx.violation("an antecedent whose text was rejected still holds (and would evaluate) an expression", {"antecedent": ant.text, "error": repr(exc)[:200]}, "unloaded", "loaded")
             return
         try:
             tree, how = self.tree_of(ant.text)
@@ -295,11 +298,20 @@ def run(ctx):
             mon.expected.pop(key, None)
             mon.weights.pop(key, None)
             mon.engines.pop(key, None)
+            if i % 6 == 0:
+                # the loaded rule is given a text the engine cannot load: it must not go on evaluating the old antecedent
+                v0 = spec_inputs[0]
+                bad = rnd.choice([f"{v0['name']} is nosuchterm", f"nosuchvariable is {v0['terms'][0]['name']}", f"{v0['name']} is", f"( {v0['name']} is {v0['terms'][0]['name']}", f"{v0['name']} is {v0['terms'][0]['name']} and"])
+                try:
+                    rule.text = f"if {bad} then out0 is {spec_out['terms'][0]['name']}"
+                    rule.load(engine)
+                except Exception:
+                    ctx.hit("event:a loaded rule is given a text that is rejected")
             if i < 3:
                 ctx.sample("antecedent", {"text": rule_text, "postfix": E.tree_postfix(tree), "conjunction": tname, "disjunction": sname, "row": rows[0], "degree": rule.activation_degree})
         probe.report(ctx)
         reach.report(ctx)
-    ctx.require("hook:Rule.activate_with", "hook:Antecedent.load", "compare:degree (generator tree)", "compare:postfix (generator tree)", "discriminates:swapped precedence", "discriminates:right associativity", "discriminates:hedge order", "piece:any", "piece:disabled variable", "piece:output variable proposition", "piece:weight", "shape:mixes and/or", "event:rule object reused for another text", "route:rule of a duplicated engine (copy)", "route:rule of a duplicated engine (deepcopy)", "route:rule of a duplicated engine (fll)", "input:2-D block of values per variable")
+    ctx.require("hook:Rule.activate_with", "hook:Antecedent.load", "compare:degree (generator tree)", "compare:postfix (generator tree)", "discriminates:swapped precedence", "discriminates:right associativity", "discriminates:hedge order", "piece:any", "piece:disabled variable", "piece:output variable proposition", "piece:weight", "shape:mixes and/or", "event:rule object reused for another text", "event:a loaded rule is given a text that is rejected", "route:rule of a duplicated engine (copy)", "route:rule of a duplicated engine (deepcopy)", "route:rule of a duplicated engine (fll)", "input:2-D block of values per variable")
 
 
 def passive(ctx, fl, probe):
